@@ -12,7 +12,18 @@ def run(c, a):
     c.build_harness()
     if a.replay:
         return replay_std(c, c.load_replay(a.replay))
-    ev = run_std(c, "call")
+    ev1 = run_std(c, "call")
+    # the same injections on the domain-shaped argument lists of the collection functions
+    from checks.c13 import FNS
+    jobs, outs = [], []
+    for fn in FNS[:-2]:
+        out = c.path("c13ivec-%s.ndjson" % fn)
+        jobs.append(("C13Gen", {"VFN": fn, "VMODE": "inject", "VTIER": c.tier, "VOUT": out}))
+        outs.append(out)
+    c.gen_parallel(jobs)
+    pairs = [(o, o.replace("c13ivec-", "c13iev-")) for o in outs]
+    c.harness_parallel("ops", pairs)
+    ev = c.concat([p[1] for p in pairs] + [ev1], c.path("c11events.ndjson"))
     c.sample_events(ev, 2, lambda l: '"ok":true' in l and '"fn":"merge"' in l)
     c.sample_events(ev, 1, lambda l: '"fn":"format"' in l)
     c.trace("StdlibTrace", ev)
